@@ -12,7 +12,55 @@ def console_counts(run, har, tier="quick", seed=1):
     run.coverage["fancy_console_counts"] = c20.fancy_leg(run, random.Random(seed + 19), tier, har, build_driver())
 
 
+def summary_leg(run, rng, tier):
+    """the closing line and the exit status of the real binary against Cli.summary, the number of commands that completed
+    successfully counted independently (each command appends to a log)"""
+    import tempfile, shutil
+    n2, out_ = build_n2_binary()
+    if n2 is None:
+        run.tie("n2 build", out_[-1000:])
+        return
+    drv = build_driver()
+    cases = []
+    for n in [0, 1, 2, 3, 7, 12] + ([25, 101] if tier == "thorough" else []):
+        for failing in (False, True):
+            cases.append((n, failing))
+    want = run_lines([drv, "summary"], ["none" if f else str(n) for n, f in cases])
+    d0 = tempfile.mkdtemp(prefix="n2verif-c19s-%d-" % os.getpid())
+    try:
+        for (n, failing), w in zip(cases, want):
+            d = os.path.join(d0, "p%d%d" % (n, failing))
+            os.makedirs(d)
+            lines = ["rule ok", "  command = echo x >> ran.log && touch $out", "rule bad", "  command = false"]
+            lines += ["build o%d: ok" % i for i in range(n)]
+            if failing:
+                lines.append("build z: bad " + " ".join("o%d" % i for i in range(n)))       # fails after everything else succeeded
+            open(os.path.join(d, "build.ninja"), "w").write("\n".join(lines) + "\n")
+            p = subprocess.run([n2, "-j", str(rng.choice([1, 3]))], cwd=d, stdout=subprocess.PIPE, stderr=subprocess.STDOUT, stdin=subprocess.DEVNULL, timeout=120, env=ENV)
+            ran = len(open(os.path.join(d, "ran.log")).read().split()) if os.path.exists(os.path.join(d, "ran.log")) else 0
+            txt, code = w.rsplit(" ", 1)
+            txt = unhexs(txt)
+            last = p.stdout.split(b"\n")[-2] + b"\n" if p.stdout.count(b"\n") else b""
+            where = {"suite": "summary", "successful_commands": ran, "failing_step": failing, "stdout_tail": p.stdout[-200:].decode("utf-8", "replace"), "rc": p.returncode}
+            if ran != n:
+                run.report_failure(None, "%d commands were to succeed, %d did" % (n, ran), where)
+            elif p.returncode != int(code) or (txt and last != txt) or (not txt and (b"n2: ran" in p.stdout or b"no work to do" in p.stdout)):
+                run.report_failure(None, "%d commands completed successfully%s: n2 ends with %r and exit status %d; expected %r and %s"
+                                   % (n, " and one failed" if failing else "", last, p.returncode, txt, code), where)
+            # a second invocation of a successful build: zero commands, `no work to do`
+            if not failing:
+                p2 = subprocess.run([n2], cwd=d, stdout=subprocess.PIPE, stderr=subprocess.STDOUT, stdin=subprocess.DEVNULL, timeout=120, env=ENV)
+                if p2.returncode != 0 or not p2.stdout.endswith(b"n2: no work to do\n"):
+                    run.report_failure(None, "a repeated build runs no command but ends with %r (exit %d)" % (p2.stdout[-60:], p2.returncode), where)
+    finally:
+        shutil.rmtree(d0, ignore_errors=True)
+    run.coverage["summary_line_cases"] = len(cases)
+
+
 def main(tier, seed, replay=None):
-    probes = (lambda run, har: console_counts(run, har, tier, seed))
+    def probes(run, har):
+        console_counts(run, har, tier, seed)
+        summary_leg(run, random.Random(seed + 191), tier)
+
     return sched_check(PROP, THEOREMS, tier, seed, [monitor_c19], extra_modules=["Model.All", "Proofs.SchedSpec", "Proofs.SchedInv", "Proofs.SchedLive", "Proofs.SchedRunThms"],
                        replay=replay, scen_gen=gen_sched_or_regen, probes=probes)
